@@ -160,7 +160,7 @@ class Ctx:
             'obligation_list': [
                 {k: v for k, v in o.items() if k in (
                     'name', 'engine', 'verdict', 'seconds', 'bound', 'paths', 'symbolic',
-                    'realised', 'nonvacuous', 'detail', 'solver', 'kind')}
+                    'realised', 'nonvacuous', 'detail', 'solver', 'kind', 'memo')}
                 for o in self.obls],
             'notes': self.notes,
         }
